@@ -588,6 +588,13 @@ def p_pow(itp, name, args, kw, node, st):
     return itp.binop(ast.Pow(), args[0], args[1], node)
 
 
+@prim('builtins.globals', 'builtins.vars', 'builtins.locals')
+def p_globals(itp, name, args, kw, node, st):
+    if name.endswith('globals') and not args:
+        return Opaque('globals')
+    return Opaque('namespace')
+
+
 @prim('builtins.dir')
 def p_dir(itp, name, args, kw, node, st):
     return Opaque('dir')
@@ -651,6 +658,8 @@ def p_zeros(itp, name, args, kw, node, st):
     # the *contents* of a fresh buffer depend on nothing; a dependence on its size is carried by the shape itself
     r = Num(zero_deg(), shape, cplx, zero=base.startswith(('zeros', 'empty')), taint=frozenset())
     r.q = 'any' if r.zero else Aff(0)
+    if base.startswith('ones'):
+        r.role = 'ones'
     r.nonneg = True
     itp.events.append(('alloc', node, base, shape, taints(args[0])))
     return r
@@ -669,6 +678,8 @@ def p_arange(itp, name, args, kw, node, st):
     r.nonneg = lo is not None and bool(lo.nonneg())
     if lo is not None and (len(args) <= 2):
         r.org = -lo          # index of the element whose value is 0 (value = lo + index)
+        r.idx = True
+        r.grid = (F(1), F(0), lo)
     return r
 
 
@@ -793,6 +804,12 @@ def p_reshape(itp, name, args, kw, node, st):
         shape = tuple(_int_aff(x) for x in rest)
     itp.events.append(('reshape', node, n.shape, shape))
     r = n.copy(shape=shape, taint=n.taint | taints(*rest))
+    if n.grid is not None and n.shape is not None and len(n.shape) == 1 and shape is not None and len(shape) == 2:
+        # an index vector turned into a column (n,1) or a row (1,n) of a broadcast index grid
+        if shape[1] == Aff(1) and shape[0] == n.shape[0]:
+            r.grid = (n.grid[0], F(0), n.grid[2])
+        elif shape[0] == Aff(1) and shape[1] == n.shape[0]:
+            r.grid = (F(0), n.grid[0], n.grid[2])
     if isinstance(args[0], Num) and args[0].is_array:
         itp.share(r, args[0], whole=False)    # reshape returns a view whenever it can
     return r
@@ -828,6 +845,29 @@ def p_next_fast_len(itp, name, args, kw, node, st):
     Aff.SYM_MIN.setdefault('fastlen', 1)
     USED.add('next_fast_len(n) >= n is a size of its own (not n) whenever n has a large prime factor')
     return IntV(Aff.sym('fastlen'), taints(*args), name='fastlen')
+
+
+def _const_list(v):
+    """a literal list / tuple of numbers as a python tuple (None otherwise)"""
+    if isinstance(v, Const) and isinstance(v.v, (list, tuple)) and all(isinstance(x, (int, float)) for x in v.v):
+        return tuple(v.v)
+    if isinstance(v, Tup) and v.items and all(isinstance(i, Const) and isinstance(i.v, (int, float)) for i in v.items):
+        return tuple(i.v for i in v.items)
+    return None
+
+
+@prim('scipy.signal.deconvolve')
+def p_deconvolve(itp, name, args, kw, node, st):
+    """polynomial division: (quotient, remainder)"""
+    itp.events.append(('deconvolve', node, _const_list(args[0]), _const_list(args[1]) if len(args) > 1 else None,
+                       itp.cur.qname if itp.cur else ''))
+    a = N(args[0])
+    if a is None:
+        return Tup([mk(itp, 'deconvolve', *args), mk(itp, 'deconvolve', *args)])
+    q = a.copy(shape=(None,))
+    q.ex = None
+    q.q = None
+    return Tup([q, q.copy()])
 
 
 @prim('numpy.pad')
@@ -943,6 +983,8 @@ def p_concat(itp, name, args, kw, node, st):
             parts = v.items
         else:
             return mk(itp, 'concatenate', *args)
+    raw_parts = list(parts)
+    itp.events.append(('concat', node, raw_parts, itp.cur.qname if itp.cur else ''))
     r = None
     total = Aff(0)
     parts = [_seq_as_num(p) for p in parts]
@@ -1122,10 +1164,12 @@ def p_multiply(itp, name, args, kw, node, st):
 @prim('numpy.dot', 'numpy.vdot', 'numpy.inner', 'numpy.convolve', 'scipy.signal.correlate', 'numpy.correlate',
       'numpy.outer', 'scipy.signal.fftconvolve', 'scipy.signal.convolve')
 def p_bilinear(itp, name, args, kw, node, st):
+    base = name.split('.')[-1]
+    if base == 'convolve':
+        itp.events.append(('convolve', node, _const_list(args[0]), _const_list(args[1]), itp.cur.qname if itp.cur else ''))
     a, b = N(args[0]), N(args[1])
     if a is None or b is None:
         return mk(itp, name, *args)
-    base = name.split('.')[-1]
     if base == 'vdot':
         a = p_conj(itp, 'numpy.conj', [a], {}, node, st)
     if base == 'correlate':
@@ -1403,6 +1447,37 @@ def p_fftshift(itp, name, args, kw, node, st):
             if a is not None:
                 r.seg = segmap.normalise(a[1] + a[0])
     USED.add('fftshift(x) = x[n-n//2:] ++ x[:n-n//2]; ifftshift(x) = x[n//2:] ++ x[:n//2]')
+    return r
+
+
+@prim('numpy.roll')
+def p_roll(itp, name, args, kw, node, st):
+    """roll(x, s)[i] = x[(i - s) mod n]: for s > 0 the last s entries move to the front (1-D; one shift per axis otherwise)"""
+    n = N(args[0])
+    if n is None:
+        return mk(itp, name, *args)
+    r = n.copy()
+    r.org = None
+    if itp.d4 and not (isinstance(n.q, Aff) or n.q == 'any'):
+        r.q = None
+    sh = arg(args, kw, 1, 'shift')
+    if isinstance(sh, Tup) and len(sh.items) == 1:
+        sh = sh.items[0]
+    s = _int_aff(sh) if sh is not None and not isinstance(sh, (Tup, SeqV)) else None
+    src = args[0] if isinstance(args[0], Num) else n
+    if getattr(src, 'seg', None) is not None and n.shape is not None and len(n.shape) == 1 and n.shape[0] is not None and s is not None:
+        from . import segmap
+        ln = n.shape[0]
+        sg = s.sign() if not s.is_const() else ((s.c > 0) - (s.c < 0))
+        cut = None
+        if sg == 0:
+            r.seg = list(src.seg)
+        elif sg is not None:
+            cut = (ln - s) if sg > 0 else -s
+            a = segmap.split_at(src.seg, cut)
+            if a is not None:
+                r.seg = segmap.normalise(a[1] + a[0])
+    USED.add('numpy.roll(x, s) = x[n-s:] ++ x[:n-s] for 0 < s < n')
     return r
 
 
